@@ -194,7 +194,7 @@ theorem spaces_split (s : List Char) (h : s.head? = some ' ') :
       | nil => simp
       | cons d tl' =>
         have : d ≠ ' ' := by simpa using h2
-        simp [List.dropWhile_cons, this]
+        simp [this]
 
 theorem spaces1_eq_some {s r : List Char} (h : spaces1 s = some r) : ∃ sp, s = sp ++ ' ' :: r := by
   unfold spaces1 at h
@@ -211,7 +211,7 @@ theorem spaces1_eq_some {s r : List Char} (h : spaces1 s = some r) : ∃ sp, s =
 
 theorem spaces1_single (x : Char) (r : List Char) (hx : x ≠ ' ') :
     spaces1 (' ' :: x :: r) = some (x :: r) := by
-  simp [spaces1, List.dropWhile_cons, hx]
+  simp [spaces1, hx]
 
 /-- `:[ ]+error:` always contains ` error:` -/
 theorem errTail_key {r0 r1 r2 r3 : List Char} (h1 : eat [':'] r0 = some r1)
